@@ -475,6 +475,9 @@ def with_warnings(fn):
     h = _Collector()
     lg = logging.getLogger('katdal')
     old_level, old_prop = lg.level, lg.propagate
+    old_handlers = list(lg.handlers)
+    for oh in old_handlers:
+        lg.removeHandler(oh)       # katdal installs a print-like handler of its own
     lg.addHandler(h)
     lg.setLevel(logging.WARNING)
     lg.propagate = False
@@ -482,6 +485,8 @@ def with_warnings(fn):
         fn()
     finally:
         lg.removeHandler(h)
+        for oh in old_handlers:
+            lg.addHandler(oh)
         lg.setLevel(old_level)
         lg.propagate = old_prop
     return h.records
